@@ -282,12 +282,13 @@ def run(tier: str) -> Run:
         r2.ok('order type')
 
     # ---- R5: exactness of the interpolation for equal endpoints ----------------------------------------------
-    r5 = run.rule('R5', 'wavelength interpolation is bit-exact when both endpoints carry the same wavelength', 2)
+    r5 = run.rule('R5', 'an intersection vertex carries bit-exactly the window edge as its time, and bit-exactly the endpoint wavelength when both endpoints carry the same wavelength', 2)
     for later in (True, False):
         w = World(repo, ExactModel)
         # a rectangle: edges 0-1 and 2-3 are lines of constant wavelength crossing the cut
         sub = w.subframe('R', (1, 3, 3, 1), (1, 1, 5, 5), shared_w=(0, 0, 1, 1))
         cut = w.scalar('cut', SEC, 2)
+        cut.members[TAG] = 'Acut'
         kind, res = w.call(cfi, [sub, cut], {'close_to_open': later})
         detail = {'outcome': kind}
         ok = False
@@ -296,8 +297,11 @@ def run(tier: str) -> Run:
             ts = items_of(res.attrs['time'])
             crossing = [wv for tv_, wv in zip(ts, ws, strict=True) if isinstance(tv_.term, Rat) and tv_.term.eq(cut.term)]
             tags = [wv.members.get(TAG) for wv in crossing]
-            ok = len(crossing) == 2 and all(t_ is not None and t_.startswith('A') for t_ in tags)
-            detail = {'intersection_wavelength_tags': tags, 'meaning': 'A<k>: bit-exactly endpoint k; I: equal only up to rounding',
+            # the time of a vertex created on the window edge is the window edge itself, not a value interpolated back to it
+            ttags = [tv_.members.get(TAG) for tv_ in ts if isinstance(tv_.term, Rat) and tv_.term.eq(cut.term)]
+            ok = len(crossing) == 2 and all(t_ is not None and t_.startswith('A') for t_ in tags) and all(t_ == 'Acut' for t_ in ttags)
+            detail = {'intersection_wavelength_tags': tags, 'intersection_time_tags': ttags,
+                      'meaning': 'A<k>: bit-exactly endpoint k / the cut; I or none: equal only up to rounding',
                       'consumer': 'Subframe.is_regular compares time/wavelength with =='}
         r5.check(ok, 'exact for equal endpoints' + (' t>=cut' if later else ' t<=cut'), loc(cfi), detail, key='lerp-exact')
 
@@ -312,6 +316,8 @@ def run(tier: str) -> Run:
         'one subframe misses the first window, another misses the second': ([((0, 1, 1, 0), (1, 1, 2, 2)), ((20, 21, 21, 20), (1, 1, 2, 2))], (3, 23), (8, 28)),
         'window contains the frame; second window misses it': ([((0, 2, 1), (1, 1, 2))], (0, 50), (40, 60)),
         'vertices exactly on open and close': ([((0, 2, 2, 0), (1, 1, 2, 2))], (3,), (8,)),
+        'window opening exactly on the last vertex (touching)': ([((0, 2, 2, 0), (1, 1, 2, 2))], (8,), (12,)),
+        'monochromatic subframe, exactly on one wavelength, cut by a window': ([((0, 4, 4, 0), (2, 2, 2, 2))], (7,), (9,)),
         'windows listed in decreasing time order': ([((0, 4, 4, 0), (1, 1, 3, 3))], (9, 4), (12, 7)),
         'a window far later listed before the windows that hit': ([((0, 4, 4, 0), (1, 1, 3, 3))], (100, 4, 9), (110, 7, 12)),
     }
@@ -334,7 +340,7 @@ def run(tier: str) -> Run:
             r3.fail(name, loc(hfi), {'outcome': kind, 'detail': repr(res)[:200]}, key=name)
             continue
         got = [points(s_) for s_ in res.attrs.get('subframes', [])]
-        generic = 'exactly on' not in name
+        generic = 'exactly on' not in name  # degenerate configurations are compared numerically at the witness
         ok, detail = match_polygons(got, want, val, symbolic=generic)
         dist_ok = isinstance(res.attrs.get('distance'), SVar) and isinstance(res.attrs['distance'].term, Rat) and res.attrs['distance'].term.eq(dc.term)
         r3.check(ok and dist_ok and bool(want), name, loc(hfi), {**detail, 'distance_is_the_chopper_distance': dist_ok, 'polygons_expected': len(want)}, key=name)
